@@ -226,14 +226,20 @@ pub fn scan<V: Vary>(
 
 #[inline]
 fn round_up_to_half(x: f32) -> f32 {
+    // Compare the fractional part to one half rather than adding one half
+    // and rounding down: the sum can round up to the next integer
     #[cfg(feature = "fp")]
-    {
+    let int = {
         use crate::math::float::f32;
-        f32::floor(x + 0.5) + 0.5
-    }
+        f32::floor(x)
+    };
     #[cfg(not(feature = "fp"))]
-    {
-        (x + 0.5) as i32 as f32 + 0.5
+    let int = x as i32 as f32;
+
+    if x - int < 0.5 {
+        int + 0.5
+    } else {
+        int + 1.5
     }
 }
 
